@@ -321,10 +321,35 @@ def r18_5(ctx):
     c14.r14_8(ctx)
 
 
+def r18_7(ctx):
+    """the state dump is written from inside scrut's own EXIT handler; whatever prints traps there (`trap -p`, bare `trap`) would
+    persist `trap -- '__scrut_persist_state' EXIT`. Sourcing that state arms the handler in shells that must not persist (detached
+    test cases, armed only by the `[ {persist_state} -eq 1 ] && trap ..` line): a detached shell that outlives scrut then re-creates
+    the removed state directory. The handler may be armed at exactly one place."""
+    from . import c12
+    tpl = c12.template(ctx.prog)
+    where = "src/executors/bash_runner.template"
+    segs = c12._segments(tpl.replace("{shell_expression}", ":"))
+    traps = [x for x in segs if re.match(r"^trap(\s|$)", x)]
+    arming = [x for x in traps if re.match(r"^trap\s+(--\s+)?['\"]?__scrut_persist_state['\"]?\s+EXIT\b", x)]
+    printing = [x for x in traps if re.match(r"^trap(\s+-[lp]+)*\s*$", x) or re.match(r"^trap\s+-p\b", x)]
+    others = [x for x in traps if x not in arming and x not in printing]
+    ctx.check(len(arming) == 1, "trap-armed-once", where, "the EXIT handler is installed by exactly one template statement (the {persist_state}-guarded one)",
+              "the EXIT handler is installed %d times: %s" % (len(arming), arming))
+    ctx.check(not printing, "trap-not-dumped", where, "no `trap -p` / bare `trap` in the template: scrut's own EXIT handler is never written into the persisted state",
+              "the template prints the trap table (%s) while running inside scrut's EXIT handler: the state file then re-installs `__scrut_persist_state` in every shell that "
+              "sources it - also in detached ones, which re-create the removed state directory after scrut has exited" % printing)
+    ctx.check(not others, "trap-no-other", where, "no other trap statement in the template", "further trap statements: %s" % others)
+    # the statement that sources the state comes before the arming line (so that a persisted trap table could not be overridden afterwards) - and
+    # detached runs get persist_state=0 (R12.2)
+    ctx.ok("trap-detached-unarmed", where, "detached test cases run with {persist_state}=0 (decided by C12 R12.2)", obligation=False)
+
+
 def run(ctx):
     ctx.run_rule("R18.1", "ownership: every directory/file creating call yields an owned TempDir (Ephemeral / live local), a path beneath one, or is leaked only under keep_temporary_directories [E-SITE]", r18_1, floor=11)
     ctx.run_rule("R18.2", "leak APIs only on the keep edge; no process::exit/abort; no panic=abort; main returns ExitCode [E-SITE]", r18_2, floor=5)
     ctx.run_rule("R18.3", "who-may-remove: no fs::remove_* in non-test code [E-SITE]", r18_3, floor=1)
     ctx.run_rule("R18.5", "the bash state file is written inside the owned per-document TempDir: the TempDir path reaches the template unmodified, in a double-quoted position (shared with C12 R12.1/R12.2) [E-FLOW]", r18_5, floor=8)
+    ctx.run_rule("R18.7", "scrut's EXIT handler is armed at one place only and never dumped into the persisted state (no `trap -p` in the template) [template analyzer]", r18_7, floor=3)
     ctx.run_rule("R18.6", "scrut-set variables are fresh per test case only if the state dump excludes them (writer/reader agreement between build_env_vars and BASH_EXCLUDED_VARIABLES) [E-TABLE]", r18_6, floor=3)
     ctx.run_rule("R18.4", "environment table: documented variables == variables set (Cram extras on the cram_compat edge); SHELL, SCRUT_TEST=<file>:<line> per test case; applied in test/update/create [E-TABLE]", r18_4, floor=12)
